@@ -330,6 +330,19 @@ func c14Run(ctx *core.Ctx, msize uint32, dotu bool, thorough bool) core.Result {
 				model = append([]byte{}, hostb...)
 			}
 			res.Sig(fmt.Sprintf("write|%d|%v|%s|op%d|%s", msize, dotu, lc, op, cntClass(dl, iou)))
+			// what was written is readable at once through the same fid (opened read-write)
+			if i%3 == 2 && len(model) > 0 && len(model) < 200000 {
+				back := make([]byte, len(model)+10)
+				m, err := wf.Readn(back, 0)
+				res.Evals++
+				if err != nil || m != len(model) || !bytes.Equal(back[:m], model) {
+					fail("read-back-after-write;"+lc, fmt.Sprintf("reading the file back through the fid it was just written through returned (%d, %v), the file has %d bytes", m, err, len(model)), nil)
+				}
+				tailOff := len(model) - 1
+				if b, err := c.Read(wf.Fid, uint64(tailOff), 5); err != nil || len(b) != 1 || b[0] != model[tailOff] {
+					fail("read-back-after-write;"+lc, fmt.Sprintf("read of the last byte just written returned %d bytes (err %v)", len(b), err), nil)
+				}
+			}
 		}
 		_ = wf.Close()
 		if li == 3 {
